@@ -48,9 +48,9 @@ const RSI: u8 = 6;
 const RDI: u8 = 7;
 const R8: u8 = 8;
 const R9: u8 = 9;
-const R10: u8 = 10;
+//const R10: u8 = 10;
 const R11: u8 = 11;
-//const R12: u8 = 12;
+const R12: u8 = 12;
 const R13: u8 = 13;
 const R14: u8 = 14;
 const R15: u8 = 15;
@@ -68,8 +68,10 @@ const REGISTER_MAP: [u8; REGISTER_MAP_SIZE] = [
     R14, // 8  callee-saved
     R15, // 9  callee-saved
     RBP, // 10 stack pointer
-         // R10 and R11 are used to compute store a constant pointer to mem and to compute offset for
-         // LD_ABS_* and LD_IND_* operations, so they are not mapped to any eBPF register.
+         // R12 and R11 are used to compute store a constant pointer to mem and to compute offset for
+         // LD_ABS_* and LD_IND_* operations, so they are not mapped to any eBPF register. The
+         // pointer to mem must live in a callee-saved register (R12), since helper calls clobber
+         // the caller-saved ones.
 ];
 
 // Return the x86 register for the given eBPF register
@@ -506,6 +508,9 @@ impl JitCompiler {
         self.emit_push(mem, R13);
         self.emit_push(mem, R14);
         self.emit_push(mem, R15);
+        // Sixth push: together with the return address and the call below, this also keeps the
+        // native stack 16-byte aligned at the call sites of helpers.
+        self.emit_push(mem, R12);
 
         // RDI: mbuff
         // RSI: mbuff_len
@@ -515,7 +520,7 @@ impl JitCompiler {
         // R9:  mem_end_offset
 
         // Save mem pointer for use with LD_ABS_* and LD_IND_* instructions
-        self.emit_mov(mem, RDX, R10);
+        self.emit_mov(mem, RDX, R12);
 
         match (use_mbuff, update_data_ptr) {
             (false, _) => {
@@ -589,32 +594,41 @@ impl JitCompiler {
             let _ = match insn.opc {
 
                 // BPF_LD class
-                // R10 is a constant pointer to mem.
-                ebpf::LD_ABS_B   =>
-                    self.emit_load(mem, OperandSize::S8,  R10, RAX, insn.imm),
-                ebpf::LD_ABS_H   =>
-                    self.emit_load(mem, OperandSize::S16, R10, RAX, insn.imm),
-                ebpf::LD_ABS_W   =>
-                    self.emit_load(mem, OperandSize::S32, R10, RAX, insn.imm),
-                ebpf::LD_ABS_DW  =>
-                    self.emit_load(mem, OperandSize::S64, R10, RAX, insn.imm),
+                // R12 is a constant pointer to mem. It cannot be used as a base register without a
+                // SIB byte, so it is copied to R11 first.
+                ebpf::LD_ABS_B  => {
+                    self.emit_mov(mem, R12, R11);
+                    self.emit_load(mem, OperandSize::S8,  R11, RAX, insn.imm);
+                }
+                ebpf::LD_ABS_H  => {
+                    self.emit_mov(mem, R12, R11);
+                    self.emit_load(mem, OperandSize::S16, R11, RAX, insn.imm);
+                }
+                ebpf::LD_ABS_W  => {
+                    self.emit_mov(mem, R12, R11);
+                    self.emit_load(mem, OperandSize::S32, R11, RAX, insn.imm);
+                }
+                ebpf::LD_ABS_DW => {
+                    self.emit_mov(mem, R12, R11);
+                    self.emit_load(mem, OperandSize::S64, R11, RAX, insn.imm);
+                }
                 ebpf::LD_IND_B   => {
-                    self.emit_mov(mem, R10, R11);                              // load mem into R11
+                    self.emit_mov(mem, R12, R11);                              // load mem into R11
                     self.emit_alu64(mem, 0x01, src, R11);                      // add src to R11
                     self.emit_load(mem, OperandSize::S8,  R11, RAX, insn.imm); // ld R0, mem[src+imm]
                 }
                 ebpf::LD_IND_H   => {
-                    self.emit_mov(mem, R10, R11);                              // load mem into R11
+                    self.emit_mov(mem, R12, R11);                              // load mem into R11
                     self.emit_alu64(mem, 0x01, src, R11);                      // add src to R11
                     self.emit_load(mem, OperandSize::S16, R11, RAX, insn.imm); // ld R0, mem[src+imm]
                 }
                 ebpf::LD_IND_W   => {
-                    self.emit_mov(mem, R10, R11);                              // load mem into R11
+                    self.emit_mov(mem, R12, R11);                              // load mem into R11
                     self.emit_alu64(mem, 0x01, src, R11);                      // add src to R11
                     self.emit_load(mem, OperandSize::S32, R11, RAX, insn.imm); // ld R0, mem[src+imm]
                 }
                 ebpf::LD_IND_DW  => {
-                    self.emit_mov(mem, R10, R11);                              // load mem into R11
+                    self.emit_mov(mem, R12, R11);                              // load mem into R11
                     self.emit_alu64(mem, 0x01, src, R11);                      // add src to R11
                     self.emit_load(mem, OperandSize::S64, R11, RAX, insn.imm); // ld R0, mem[src+imm]
                 }
@@ -1014,6 +1028,7 @@ impl JitCompiler {
         // Deallocate stack space
         self.emit_alu64_imm32(mem, 0x81, 0, RSP, ebpf::STACK_SIZE as i32);
 
+        self.emit_pop(mem, R12);
         self.emit_pop(mem, R15);
         self.emit_pop(mem, R14);
         self.emit_pop(mem, R13);
